@@ -7,6 +7,8 @@ Families (complete products):
           {list, tuple, str, range, generator, dict keys view, one-shot iterator}
   slice   l[lo:up:st] = v and l[lo:up:st] op= v : every subset of bounds, bound values negative/zero/
           positive/beyond the end, steps {1,2,-1}, value lengths 0..3
+  chained chained assignments mixing destructuring targets with name/attribute/subscript targets x 7 value
+          kinds: every target receives the value itself (type and identity observed)
   ops     13 operators x target {name, attribute, subscript, slice} x left/right operand types
           {int, float, str, list, tuple, set, dict, bytearray, frozenset, user class with in-place method,
           without, with an in-place method returning a new object, with one returning NotImplemented} x placement {global, local, nonlocal,
@@ -192,6 +194,32 @@ def slice_programs():
         yield "c13:slice:tupleidx:aug:" + idx, rec + "r[%s] += 9\nprint(r.log)\n" % idx
 
 
+def chained_programs():
+    """chained assignments that mix destructuring targets with plain/attribute/subscript targets:
+    every target must receive the VALUE itself (same object, same type), never a snapshot of it"""
+    values = {"list": "[1, 2]", "tuple": "(1, 2)", "str": "'ab'", "gen": "(q for q in (1, 2))", "range": "range(2)", "dictkeys": "{1: 0, 2: 0}.keys()", "nested": "[[1, 2], 3]"}
+    chains = [
+        "a, b = whole", "whole = a, b", "a, b = whole = o.w", "o.w = a, b = whole", "[a, b] = whole = d['w']", "a, *b = whole = o.w", "whole = a, b = c, e",
+        "(a, b), c = whole", "whole = (a, b), c", "a, b = c, e = whole", "d['w'] = o.w = a, b",
+    ]
+    for vn, v in values.items():
+        for i, ch in enumerate(chains):
+            if ("(a, b), c" in ch) != (vn == "nested"):
+                continue
+            names = sorted(set(__import__("re").findall(r"\b(a|b|c|e|whole)\b", ch)))
+            reads = ", ".join("(%r, type(%s).__name__, %s if not hasattr(%s, '__next__') else 'iterator')" % (n, n, n, n) for n in names)
+            extra = []
+            if "o.w" in ch:
+                extra.append("type(o.w).__name__")
+                if "whole" in ch:
+                    extra.append("o.w is whole")
+            if "d['w']" in ch:
+                extra.append("type(d['w']).__name__")
+                if "whole" in ch:
+                    extra.append("d['w'] is whole")
+            yield "c13:chained:%s:%d" % (vn, i), PRE + "%s = %s\nprint(%s)\n" % (ch, v, ", ".join([reads] + extra))
+
+
 # --------------------------------------------------------------------------- operator family
 OPS = ["+", "-", "*", "@", "/", "//", "%", "**", "<<", ">>", "&", "^", "|"]
 _DUNDER = {"+": "add", "-": "sub", "*": "mul", "@": "matmul", "/": "truediv", "//": "floordiv", "%": "mod", "**": "pow", "<<": "lshift", ">>": "rshift", "&": "and", "^": "xor", "|": "or"}
@@ -254,7 +282,7 @@ def _ind(s):
 
 
 # --------------------------------------------------------------------------- driver
-FAMILIES = {"unpack": None, "slice": slice_programs, "ops": ops_programs}
+FAMILIES = {"unpack": None, "slice": slice_programs, "ops": ops_programs, "chained": chained_programs}
 
 
 def run_shard(shard):
@@ -284,6 +312,7 @@ def shards(tier):
             out.append(("unpack", (3, "deep"), r, 512, [2, 5]))
     for r in range(16):
         out.append(("slice", None, r, 16, cfgs))
+    out.append(("chained", None, 0, 1, cfgs))
     ko = 128
     for r in range(ko):
         out.append(("ops", None, r, ko, cfgs if tier == "thorough" else [2, 5]))
@@ -293,8 +322,11 @@ def shards(tier):
 def main(tier, seed, collect=None):
     t0 = time.time()
     total = core.run_shards(run_shard, shards(tier), seed=seed, pid=PID)
+    other_hosts = core.run_on_hosts(PID, ["py310", "py311", "py313"], "quick", seed, total) if tier == "thorough" else []
+
     c = total.c
     cov = {
+        "converter_hosts": [core.HOST] + other_hosts,
         "evaluations": c["executions"],
         "distinct_nontrivial": c["programs_in_scope"],
         "rule": "every member of the three products (unpack patterns x lengths x source kinds; slice bounds x values; operators x target "
